@@ -126,7 +126,7 @@ func genRouteCase(rng *rand.Rand, flameLevel bool, nPaths int) *routeCase {
 
 func runRouteLoop(r *core.Run, prop string) {
 	if prop == "C01" {
-		r.Rule("route sets (1-10 routes over a per-set pool of 4-6 segment shapes: static incl. regex-active literals, placeholder, multi-bind regex with catalogue expressions, match-all with/without capture, {**}, optional/empty final segment, root) registered in random order; 40/60 route-directed paths per set (instances of long/short forms, 1-2 hostile mutations, literal probes, random). Oracle: declarative derivation model, winner = lexicographic minimum of (final-matchall-deferred, rank, registration order, span). non-trivial = distinct (set,path) with >=2 derivations from >=2 routes, or a dead-end higher-priority branch (backtrack needed), or a match-all with >1 feasible span")
+		r.Rule("route sets (1-10 routes over a per-set pool of 4-6 segment shapes: static incl. regex-active literals, placeholder, multi-bind regex with catalogue expressions, match-all with/without capture, {**}, optional/empty final segment, root) registered in random order; 40/60 route-directed paths per set (instances of long/short forms, 1-2 hostile mutations, literal probes, random). Oracle: declarative derivation model, winner = lexicographic minimum of (final-matchall-deferred, rank, registration order, span); second, model-free oracle: a path is dispatched iff some accepted route admits it when registered alone in a tree of its own, and the winner does so with the same binds. non-trivial = distinct (set,path) with >=2 derivations from >=2 routes, or a dead-end higher-priority branch (backtrack needed), or a match-all with >1 feasible span")
 	} else {
 		r.Rule("same workload as C01 biased to dispatched requests; judged: every bind of the matched route equals the model's captured substring decoded once, `route` is the canonical text, model-free predicates on %-free paths (regex value fully matches its own expression, placeholder holds one segment, match-all spans 1..capture segments), round trip Leaf.URLPath(params, optional iff used) reproduces the path with captured substrings decoded. non-trivial = distinct (route,path) with >=2 binds in one segment, or a user expression with its own groups, or an escape in a captured value, or a match-all span >=2")
 	}
@@ -145,7 +145,7 @@ func runRouteLoop(r *core.Run, prop string) {
 	})
 	if prop == "C01" {
 		r.Gate("distinct_nontrivial", r.NonTrivialCount(), 500)
-		for _, k := range []string{"decided:rank", "decided:registration-order", "decided:fewest-captured", "decided:final-matchall-deferred", "backtrack-needed", "not-found-agree", "flame-level-dispatches", "unknown-method-requests", "kept-tree-after-refusal", "requests-with-raw-path"} {
+		for _, k := range []string{"decided:rank", "decided:registration-order", "decided:fewest-captured", "decided:final-matchall-deferred", "backtrack-needed", "not-found-agree", "flame-level-dispatches", "unknown-method-requests", "kept-tree-after-refusal", "requests-with-raw-path", "isolated-route-oracle"} {
 			r.GateCounter(k, 1)
 		}
 		r.GateCounter("dispatches-compared", int64(nSets)*int64(nPaths)/2)
@@ -231,6 +231,19 @@ func judgeRouteCase(w *core.W, c *routeCase, prop string, parser *route.Parser) 
 		w.Violate("tree-invariant", c, msg)
 		return
 	}
+	// model-free second oracle (C01): every accepted route alone in a tree of its own. A path is dispatched
+	// iff some route admits it on its own, and the winner admits it on its own with the same binds. This does not
+	// use the reference model at all, so it also judges the model.
+	iso := map[int]route.Tree{}
+	if prop == "C01" {
+		for _, a := range accepted {
+			ar, _, _ := safeParse(parser, a.txt)
+			t := route.NewTree()
+			if _, err, pan := safeAdd(t, ar, mkHandler(a.idx)); err == nil && pan == nil {
+				iso[a.idx] = t
+			}
+		}
+	}
 	for _, pb := range c.Paths {
 		path := string(pb)
 		w.Eval()
@@ -243,6 +256,34 @@ func judgeRouteCase(w *core.W, c *routeCase, prop string, parser *route.Parser) 
 		}
 		if ok {
 			leaf.Handler()(nil, nil, params)
+		}
+		if prop == "C01" && len(iso) == len(accepted) {
+			w.Count("isolated-route-oracle")
+			admitting := -1
+			for _, a := range accepted {
+				if _, ip, iok, _ := safeMatch(iso[a.idx], path, nil); iok {
+					if admitting < 0 {
+						admitting = a.idx
+					}
+					if ok && a.idx == hit {
+						admitting = a.idx
+						for k, v := range ip {
+							if params[k] != v {
+								w.Violate("isolated-route-oracle", c, fmt.Sprintf("path %q: route #%d %q binds %q=%q among the other routes but %q on its own", path, hit, a.txt, k, params[k], v))
+								return
+							}
+						}
+					}
+				}
+			}
+			switch {
+			case ok && admitting != hit:
+				w.Violate("isolated-route-oracle", c, fmt.Sprintf("path %q was dispatched to route #%d %q, which does not admit it when registered alone", path, hit, leaf.Route()))
+				return
+			case !ok && admitting >= 0:
+				w.Violate("isolated-route-oracle", c, fmt.Sprintf("path %q: not found, although route #%d admits it when registered alone (an admitting route exists)", path, admitting))
+				return
+			}
 		}
 		obs := observed{found: ok, routeIdx: hit, params: params}
 		if ok {
